@@ -32,11 +32,12 @@ type File struct {
 }
 
 type Case struct {
-	Files  []*File
-	Fault  string // "" = well-formed
-	Where  string // placement class
-	NoPos  bool   // fault without a particular declaration (no @start)
-	Detail string `json:",omitempty"`
+	Files        []*File
+	Fault        string // "" = well-formed
+	Where        string // placement class
+	NoPos        bool   // fault without a particular declaration (no @start)
+	UsesExternal bool   `json:",omitempty"`
+	Detail       string `json:",omitempty"`
 }
 
 func ri(t *rapid.T, lo, hi int, l string) int { return rapid.IntRange(lo, hi).Draw(t, l) }
@@ -70,6 +71,7 @@ type base struct {
 	rules    []string
 	lexFile  []int // files having a lexer section
 	parsFile int
+	exts     []string
 }
 
 func genBase(rt *rapid.T) *base {
@@ -131,6 +133,7 @@ func genBase(rt *rapid.T) *base {
 		}
 		if ri(rt, 0, 2, "ext") == 0 {
 			add(f, &Item{Kind: "external", Name: fmt.Sprintf("EXT%d", f), Lines: []string{fmt.Sprintf("@external EXT%d EXTB%d", f, f)}})
+			b.exts = append(b.exts, fmt.Sprintf("EXT%d", f))
 		}
 		if ri(rt, 0, 1, "mode") == 0 {
 			mname := fmt.Sprintf("Mode%d", f)
@@ -164,6 +167,11 @@ func genBase(rt *rapid.T) *base {
 	}
 	if k >= 3 {
 		alts = append(alts, ref(g[2])+" @list(pair, "+ref(g[0])+")? "+ref(g[2]))
+	}
+	if len(b.exts) > 0 && ri(rt, 0, 1, "useext") == 0 {
+		// tokens produced by an external lexer are terminals like any other
+		alts = append(alts, b.exts[ri(rt, 0, len(b.exts)-1, "ext")]+" "+ref(g[0]))
+		c.UsesExternal = true
 	}
 	lines := []string{"item = " + alts[0]}
 	for _, a := range alts[1:] {
@@ -554,6 +562,9 @@ func TestC17(t *testing.T) {
 			}
 		}
 		run.Eval(1)
+		if c.UsesExternal {
+			run.Class("parser-uses-@external-token")
+		}
 		if c.Fault == "" {
 			run.Class("well-formed")
 		} else {
